@@ -1,3 +1,4 @@
+\* c4mand2
 SPECIFICATION Spec
 CONSTANTS
   Cand <- Cand234
